@@ -118,6 +118,10 @@ type kdfAlgorithm byte
 type ecdhKdf struct {
 	KdfHash kdfHashFunction
 	KdfAlgo kdfAlgorithm
+
+	// raw holds the KDF parameters as they were read (without the length
+	// octet), so that the key is re-serialized - and hashed - exactly.
+	raw []byte
 }
 
 func (f *ecdhKdf) parse(r io.Reader) (err error) {
@@ -136,6 +140,7 @@ func (f *ecdhKdf) parse(r io.Reader) (err error) {
 	reserved := int(buf[0])
 	f.KdfHash = kdfHashFunction(buf[1])
 	f.KdfAlgo = kdfAlgorithm(buf[2])
+	f.raw = buf
 	if reserved != 0x01 {
 		return errors.UnsupportedError("Unsupported KDF reserved field: " + strconv.Itoa(reserved))
 	}
@@ -143,6 +148,14 @@ func (f *ecdhKdf) parse(r io.Reader) (err error) {
 }
 
 func (f *ecdhKdf) serialize(w io.Writer) (err error) {
+	if f.raw != nil {
+		// a parsed key: exactly the octets that were read
+		if _, err = w.Write([]byte{byte(len(f.raw))}); err != nil {
+			return
+		}
+		_, err = w.Write(f.raw)
+		return
+	}
 	buf := make([]byte, 4)
 	// See RFC 6637, Section 9, Algorithm-Specific Fields for ECDH keys.
 	buf[0] = byte(0x03) // Length of the following fields
@@ -154,6 +167,9 @@ func (f *ecdhKdf) serialize(w io.Writer) (err error) {
 }
 
 func (f *ecdhKdf) byteLen() int {
+	if f.raw != nil {
+		return 1 + len(f.raw)
+	}
 	return 4
 }
 
